@@ -57,6 +57,9 @@ pub fn groups_for(prop: Prop) -> &'static [&'static str] {
 fn configs_for(prop: Prop, tier: Tier) -> Vec<Arc<dyn Runner>> {
     let f = ALL.with(|a| a.borrow().expect("main_with not called"));
     f().into_iter().filter(|e| (tier == Tier::Thorough || e.quick) && groups_for(prop).contains(&e.group))
+        // dbglike flavour (core ub_checks): an over-aligned element type on inline storage aborts on the first typed view of even an
+        // empty vector - that is the C12 known finding itself; it is reported by the relike flavour, these configs are skipped here
+        .filter(|e| !(cfg!(debug_assertions) && matches!(e.r.backend(), crate::caps::BK::Stack | crate::caps::BK::StackN) && e.r.elem_align() > 8))
         .filter(|e| prop != Prop::C18 || e.r.backend() == crate::caps::BK::Heap)
         .filter(|e| prop != Prop::C17 || matches!(e.r.backend(), crate::caps::BK::Heap | crate::caps::BK::Empty))
         .map(|e| Arc::from(e.r)).collect()
@@ -78,7 +81,10 @@ fn load_known(path: Option<String>) -> HashSet<String> {
 
 fn init_states(r: &dyn Runner, prop: Prop, tier: Tier, cmax: usize) -> Vec<McState> {
     let mut v = Vec::new();
-    for spare in edges::spare_modes(prop, tier) {
+    // inline storage with over-aligned elements (C12 known finding): never construct elements there, only the empty pristine vector
+    let inline_overaligned = matches!(r.backend(), caps::BK::Stack | caps::BK::StackN) && r.elem_align() > 8;
+    let modes = if inline_overaligned { vec![Spare::Pristine] } else { edges::spare_modes(prop, tier) };
+    for spare in modes {
         match r.fixed_cap() {
             Some(c) => v.push(McState { len: 0, cap: c.min(u16::MAX as usize) as u16, spare, bad: None }),
             None => for c in 0..=cmax { v.push(McState { len: 0, cap: c as u16, spare, bad: None }); },
